@@ -1,3 +1,4 @@
+import threading
 from datetime import datetime
 try:
     from functools import lru_cache
@@ -241,6 +242,7 @@ def parse_filter(filter):
 ## --- Generate python to apply filter
 FILTER_CACHE_LRU_SIZE = 500
 _id_function = 0
+_id_function_lock = threading.Lock()
 
 
 class _NotFoundValue():
@@ -311,10 +313,13 @@ class _FnWrapper():
 def _filter_function(filter):
     global _id_function
     def_filter = _generate_filter_in_python(parse_filter(filter)._head, [])
-    fun_name = "_gen_hsfilter_" + str(_id_function)
+    # Allocate the name atomically: two threads compiling different filters
+    # must never share a generated function name.
+    with _id_function_lock:
+        fun_name = "_gen_hsfilter_" + str(_id_function)
+        _id_function += 1
     function_template = "def %s(_grid, _entity):\n  return " % fun_name + "".join(def_filter)
     print("\nGenerate:\n# " + filter + "\n" + function_template)  # FIXME: debug
-    _id_function += 1
     return _FnWrapper(fun_name, function_template)
 
 
